@@ -100,7 +100,13 @@ def _collapse_snapshots(
     :return: collapsed sequence of snapshots
     """
     seen_names = set()  # type: Set[str]
-    collapsed = base_snapshots + snapshots
+
+    # The very same snapshot can be inherited over more than one base class (*e.g.*, in a diamond hierarchy);
+    # only two *different* snapshots with the same name are in conflict.
+    collapsed = []  # type: List[Snapshot]
+    for snap in base_snapshots + snapshots:
+        if not any(snap is another_snap for another_snap in collapsed):
+            collapsed.append(snap)
 
     for snap in collapsed:
         if snap.name in seen_names:
